@@ -13,6 +13,16 @@ from harness import core, dgcheck
 
 def run(ctx):
     dgcheck.setup(ctx, "C03", ["RegTables"], ["OsacaVerif.Props.C03"])
+    # synthetic ISA semantic entries (random per-operand roles, hidden flag operands, zero idioms) are appended to
+    # the private copy of isa/x86.yml before the implementation loads it
+    import os
+    from harness import synthisa
+
+    syn_forms = synthisa.gen_db(ctx.rng, 14)
+    synthisa.install(ctx.env.data, syn_forms)
+    syn_model = os.path.join(ctx.env.work, "synisa.yml")
+    with open(syn_model, "w") as f:
+        f.write(synthisa.arch_yaml(syn_forms))
     n = (300 if ctx.tier == "quick" else 5000) * (3 if ctx.broken else 1)
     distinct = set()
     for im, src in dgcheck.kernels_stream(ctx, n, 12 if ctx.tier == "quick" else 40, kinds=["plain", "plain", "mem"]):
@@ -73,12 +83,44 @@ def run(ctx):
             ctx.violation(what, dict(im.info(), missing=miss, extra=extra))
         if len(ctx.violations) > 10:
             break
-    ctx.cov["evaluations"] = ctx.counts.get("kernels", 0) + ctx.counts.get("role_kernels", 0)
+    # ---- synthetic ISA database: reference RAW from the generated roles (registers and, if requested, each flag)
+    from osaca.semantics import MachineModel as MM
+
+    smm = MM(path_to_yaml=syn_model)
+    ns = (300 if ctx.tier == "quick" else 4000) * (3 if ctx.broken else 1)
+    for t in range(ns):
+        lines, rl = synthisa.gen_kernel(ctx.rng, syn_forms, ctx.rng.randint(2, 8), npool=ctx.rng.choice([2, 3, 4]))
+        fd = t % 2 == 1
+        try:
+            im = dgcheck.Impl("x86", "synisa", lines, fd, smm)
+        except Exception as e:  # noqa
+            ctx.violation("analysis of a synthetic-ISA kernel raised %s: %s" % (type(e).__name__, e),
+                          {"isa": "x86", "kernel": lines, "isa_forms": syn_forms, "exception": type(e).__name__})
+            continue
+        ctx.count("synisa_kernels")
+        dgcheck.compare_dg(ctx, im)
+        ref = synthisa.reference_raw(rl, fd)
+        impl = {(int(s) - 1, int(d) - 1) for (s, d) in im.edges() if not s.endswith("L")}
+        ctx.count("synisa_edges", len(ref))
+        if ref:
+            distinct.add(repr(("synisa", lines, fd)))
+        if impl != ref:
+            miss, extra = sorted(ref - impl), sorted(impl - ref)
+            e = (miss or extra)[0]
+            what = ("synthetic ISA roles: %s dependency %d -> %d (`%s` -> `%s`), flag dependencies %s"
+                    % ("missing" if miss else "spurious", e[0] + 1, e[1] + 1, lines[e[0]], lines[e[1]], "on" if fd else "off"))
+            used = [f for f in syn_forms if any(l.startswith(f["name"] + " ") for l in lines)]
+            ctx.violation(what, {"isa": "x86", "arch": "synisa", "kernel": lines, "flag_deps": fd, "isa_forms": used,
+                                 "missing": miss, "extra": extra})
+        if len(ctx.violations) > 10:
+            break
+    ctx.cov["evaluations"] = ctx.counts.get("kernels", 0) + ctx.counts.get("role_kernels", 0) + ctx.counts.get("synisa_kernels", 0)
     ctx.cov["distinct_nontrivial"] = len(distinct)
     ctx.cov["traces_validated_against_impl"] = ctx.counts.get("dg_compared", 0)
     ctx.cov["rule"] = "distinct (isa, kernel text, flag option) with at least one dependency edge; shipped kernels + generated ones"
     ctx.log("%d kernels, %d RAW edges checked; %d vocabulary kernels, %d reference edges" % (
-        ctx.counts.get("kernels", 0), ctx.counts.get("raw_edges", 0), ctx.counts.get("role_kernels", 0), ctx.counts.get("role_edges", 0)))
+        ctx.counts.get("kernels", 0), ctx.counts.get("raw_edges", 0), ctx.counts.get("role_kernels", 0), ctx.counts.get("role_edges", 0)) + "; %d synthetic-ISA kernels, %d reference edges" % (
+        ctx.counts.get("synisa_kernels", 0), ctx.counts.get("synisa_edges", 0)))
     return ctx.finish(trusted=dgcheck.TRUSTED)
 
 
